@@ -1,5 +1,5 @@
 // C10 puppet: counts handler invocations per signal, loops through a breakpoint site.
-// usage: sigpuppet <threads 1|2> <iterations> <spin> [free]   (gated by C10_GO unless `free`)
+// usage: sigpuppet <threads 1..4> <iterations> <spin> [free]   (gated by C10_GO unless `free`)
 // build: rustc +1.89 --edition 2021 -g sigpuppet.rs
 use std::hint::black_box;
 use std::sync::atomic::{AtomicU64, Ordering::SeqCst};
@@ -88,8 +88,11 @@ fn main() {
     if args.get(4).map(|s| s == "free").unwrap_or(false) {
         C10_GO.store(u64::MAX, SeqCst);
     }
-    let h = if threads >= 2 { Some(std::thread::spawn(move || worker(n))) } else { None };
-    if h.is_some() {
+    let mut hs = Vec::new();
+    for _ in 1..threads {
+        hs.push(std::thread::spawn(move || worker(n)));
+    }
+    if !hs.is_empty() {
         while C10_ITER[1].load(SeqCst) == 0 {
             spin(1000);
         }
@@ -106,7 +109,7 @@ fn main() {
         i += 1;
     }
     WORKER_DONE.store(1, SeqCst);
-    if let Some(h) = h {
+    for h in hs {
         h.join().unwrap();
     }
     black_box(acc);
